@@ -1,2 +1,106 @@
-use crate::NativeBody;
-pub fn register(_v: &mut Vec<(&'static str, NativeBody)>) {}
+//! C35 — result ordering: `compare_wire_values` is a total preorder (what `sort_by` needs).
+use crate::{check, cover, harness, NativeBody, NativeSrc, Src};
+use inputlayer::protocol::handler::verif_compare_wire_values as cmpw;
+use inputlayer::protocol::wire::WireValue;
+use std::cmp::Ordering;
+
+/// Arbitrary optional wire value. Kinds: absent column, Null, Int32, Int64, Float64 (every
+/// bit pattern), Bool, Timestamp, String from {"a","b"}, and empty Vector/VectorInt8/Bytes.
+pub fn any_wire<S: Src>(s: &mut S) -> Option<WireValue> {
+    let k = s.u8();
+    s.assume(k < 11);
+    match k {
+        0 => None,
+        1 => Some(WireValue::Null),
+        2 => Some(WireValue::Int32(s.i32())),
+        3 => Some(WireValue::Int64(s.i64())),
+        4 => Some(WireValue::Float64(s.f64())),
+        5 => Some(WireValue::Bool(s.bool())),
+        6 => Some(WireValue::Timestamp(s.i64())),
+        7 => Some(WireValue::String(String::from(if s.bool() { "a" } else { "b" }))),
+        8 => Some(WireValue::Vector(Vec::new())),
+        9 => Some(WireValue::VectorInt8(Vec::new())),
+        _ => Some(WireValue::Bytes(Vec::new())),
+    }
+}
+
+/// numeric kinds only (Int64 / Float64): the cross-type numeric comparison
+pub fn any_num<S: Src>(s: &mut S) -> Option<WireValue> {
+    if s.bool() {
+        Some(WireValue::Int64(s.i64()))
+    } else {
+        Some(WireValue::Float64(s.f64()))
+    }
+}
+
+fn laws2(a: &Option<WireValue>, b: &Option<WireValue>) -> Result<(), String> {
+    check!(cmpw(a.as_ref(), a.as_ref()) == Ordering::Equal, "reflexive");
+    check!(
+        cmpw(a.as_ref(), b.as_ref()) == cmpw(b.as_ref(), a.as_ref()).reverse(),
+        "antisymmetry"
+    );
+    Ok(())
+}
+
+fn laws3(a: &Option<WireValue>, b: &Option<WireValue>, c: &Option<WireValue>) -> Result<(), String> {
+    let ab = cmpw(a.as_ref(), b.as_ref());
+    let bc = cmpw(b.as_ref(), c.as_ref());
+    let ac = cmpw(a.as_ref(), c.as_ref());
+    if ab != Ordering::Greater && bc != Ordering::Greater {
+        check!(ac != Ordering::Greater, "transitivity of <=");
+    }
+    if ab == Ordering::Equal && bc == Ordering::Equal {
+        check!(ac == Ordering::Equal, "transitivity of Equal");
+    }
+    if ab == Ordering::Less && bc != Ordering::Greater {
+        check!(ac == Ordering::Less, "a<b<=c => a<c");
+    }
+    Ok(())
+}
+
+pub fn b_pair<S: Src>(s: &mut S) -> Result<(), String> {
+    let a = any_wire(s);
+    let b = any_wire(s);
+    cover!(matches!((&a, &b), (Some(WireValue::Int64(_)), Some(WireValue::Float64(_)))), "int vs float");
+    cover!(a.is_none() && b.is_some(), "absent vs present");
+    let r = laws2(&a, &b);
+    std::mem::forget(a);
+    std::mem::forget(b);
+    r
+}
+harness!(c35_pair, b_pair, 4);
+
+pub fn b_triple<S: Src>(s: &mut S) -> Result<(), String> {
+    let a = any_wire(s);
+    let b = any_wire(s);
+    let c = any_wire(s);
+    cover!(
+        cmpw(a.as_ref(), b.as_ref()) == Ordering::Less && cmpw(b.as_ref(), c.as_ref()) == Ordering::Less,
+        "strict chain"
+    );
+    let r = laws3(&a, &b, &c);
+    std::mem::forget(a);
+    std::mem::forget(b);
+    std::mem::forget(c);
+    r
+}
+harness!(c35_triple, b_triple, 4);
+
+pub fn b_num_triple<S: Src>(s: &mut S) -> Result<(), String> {
+    let a = any_num(s);
+    let b = any_num(s);
+    let c = any_num(s);
+    cover!(
+        matches!((&a, &b, &c), (Some(WireValue::Int64(_)), Some(WireValue::Float64(_)), Some(WireValue::Int64(_)))),
+        "int-float-int"
+    );
+    laws2(&a, &b)?;
+    laws3(&a, &b, &c)
+}
+harness!(c35_num_triple, b_num_triple, 4);
+
+pub fn register(v: &mut Vec<(&'static str, NativeBody)>) {
+    v.push(("c35_pair", b_pair::<NativeSrc>));
+    v.push(("c35_triple", b_triple::<NativeSrc>));
+    v.push(("c35_num_triple", b_num_triple::<NativeSrc>));
+}
